@@ -17,12 +17,16 @@ func main() {
 	n := fs.Int("n", 300, "number of cases")
 	out := fs.String("out", "", "output json")
 	replay := fs.String("replay", "", "replay file (json case)")
+	what := fs.String("what", "c08,c09,c10", "e2e: scenario families")
+	witness := fs.String("witness", "", "machine: tags of known findings whose witnesses are to be run")
 	fs.Parse(os.Args[2:])
 	switch os.Args[1] {
 	case "intensity":
 		runIntensity(*n, *out, *replay)
 	case "machine":
-		runMachine(*n, *out, *replay)
+		runMachine(*n, *out, *replay, *witness)
+	case "e2e":
+		runE2E(*n, *out, *replay, *what)
 	default:
 		fmt.Fprintln(os.Stderr, "unknown subcommand")
 		os.Exit(2)
